@@ -6,7 +6,11 @@
 // on the established connection it stops reading, pushes the close notification (response packet
 // with request id 0 and result description "_reconnect_"), keeps the connection open for another
 // 500 ms – 1 s and only then closes it; the listener stays up and new connections are served.
-// Optionally an ordinary push (request id 0, other description) precedes the notification.
+// Optionally an ordinary push (request id 0, other description) precedes the notification, ONE-WAY
+// calls (counted by the client as in flight, never answered) precede it, and the server restarts
+// gracefully two or three times in a row (the next notification 100 ms – 2 s after the previous one,
+// on the then current connection) — the handler of an earlier notification may still be waiting in
+// GraceClose for the old client.
 //
 // Calls are issued 50 – 200 ms after the notification was written, by a client WITHOUT push
 // callback and by one WITH a callback. Oracle (independent of the model): every call succeeds in
@@ -57,12 +61,13 @@ func packRsp(rsp *requestf.ResponsePacket) []byte {
 }
 
 type nConn struct {
-	k        int
-	c        net.Conn
-	stop     chan struct{}
-	accepted time.Time
-	unread   int32 // bytes found in the socket when the server finally closes it
-	closed   int32
+	announced int32 // 1 once the close notification has been pushed on this connection
+	k         int
+	c         net.Conn
+	stop      chan struct{}
+	accepted  time.Time
+	unread    int32 // bytes found in the socket when the server finally closes it
+	closed    int32
 }
 
 type nArrival struct {
@@ -139,6 +144,7 @@ func (s *nServer) handle(nc *nConn) {
 // push first,) the close notification, the close a while later. Returns when the notification has
 // been written.
 func (s *nServer) announce(nc *nConn, extraPush int, linger time.Duration) time.Time {
+	atomic.StoreInt32(&nc.announced, 1)
 	close(nc.stop)
 	time.Sleep(30 * time.Millisecond) // the reader has seen stop (it polls every 10 ms)
 	if extraPush >= 0 {
@@ -163,21 +169,24 @@ func (s *nServer) announce(nc *nConn, extraPush int, linger time.Duration) time.
 
 type nCall struct {
 	Name    string
-	After   bool // issued after the notification
+	OneWay  bool
+	Epoch   int  // number of close notifications before the call was issued
+	After   bool // issued after a notification
 	OK      bool
 	Err     string
 	Latency time.Duration
 }
 
 type nOutcome struct {
-	sc       Scenario
-	calls    []nCall
-	arrivals []nArrival
-	conns    int
-	oldConns int // connections accepted before the notification
-	unread   int32
-	pushed   []int
-	harness  string
+	sc        Scenario
+	calls     []nCall
+	arrivals  []nArrival
+	conns     int
+	oldConns  int   // connections accepted before the notification
+	announced []int // index of the connection announced as closing in each restart
+	unread    int32
+	pushed    []int
+	harness   string
 }
 
 var nObjSeq int32
@@ -212,24 +221,33 @@ func executeNotify(sc Scenario) (out nOutcome) {
 		})
 	}
 	seq := 0
-	call := func(after bool) {
+	epoch := 0
+	invoke := func(oneWay bool) {
 		seq++
 		name := fmt.Sprintf("c%d", seq)
 		var rsp requestf.ResponsePacket
+		ctype := byte(basef.TARSNORMAL)
+		if oneWay {
+			ctype = byte(basef.TARSONEWAY)
+		}
 		t0 := time.Now()
-		err := p.s.TarsInvoke(context.Background(), 0, name, nil, nil, nil, &rsp)
-		c := nCall{Name: name, After: after, OK: err == nil, Latency: time.Since(t0)}
+		err := p.s.TarsInvoke(context.Background(), ctype, name, nil, nil, nil, &rsp)
+		c := nCall{Name: name, OneWay: oneWay, Epoch: epoch, After: epoch > 0, OK: err == nil, Latency: time.Since(t0)}
 		if err != nil {
 			c.Err = err.Error()
 		}
 		out.calls = append(out.calls, c)
 	}
+	call := func() { invoke(false) }
 	pre := sc.PreCalls
 	if pre < 1 {
 		pre = 1
 	}
 	for i := 0; i < pre; i++ {
-		call(false)
+		call()
+	}
+	for i := 0; i < sc.OneWays; i++ {
+		invoke(true)
 	}
 	srv.mu.Lock()
 	if len(srv.conns) != 1 {
@@ -237,25 +255,48 @@ func executeNotify(sc Scenario) (out nOutcome) {
 		srv.mu.Unlock()
 		return
 	}
-	old := srv.conns[0]
 	out.oldConns = 1
 	srv.mu.Unlock()
-	extra := -1
-	if sc.ExtraPush {
-		extra = 7
+	restarts := sc.Restarts
+	if restarts < 1 {
+		restarts = 1
 	}
 	linger := time.Duration(sc.LingerMs) * time.Millisecond
-	at := srv.announce(old, extra, linger)
-	time.Sleep(time.Until(at.Add(time.Duration(sc.DelayMs) * time.Millisecond)))
-	call(true)
-	call(true)
-	// until the old connection has been closed by the server
-	for i := 0; i < 400 && atomic.LoadInt32(&old.closed) == 0; i++ {
-		time.Sleep(5 * time.Millisecond)
+	var olds []*nConn
+	for r := 0; r < restarts; r++ {
+		srv.mu.Lock()
+		cur := srv.conns[len(srv.conns)-1]
+		srv.mu.Unlock()
+		if atomic.LoadInt32(&cur.announced) == 1 {
+			// the client never left the connection announced last time: nothing new to announce on
+			break
+		}
+		extra := -1
+		if sc.ExtraPush && r == 0 {
+			extra = 7
+		}
+		at := srv.announce(cur, extra, linger)
+		olds = append(olds, cur)
+		out.announced = append(out.announced, cur.k)
+		epoch++
+		time.Sleep(time.Until(at.Add(time.Duration(sc.DelayMs) * time.Millisecond)))
+		call()
+		call()
+		if r+1 < restarts {
+			time.Sleep(time.Until(at.Add(time.Duration(sc.GapMs) * time.Millisecond)))
+		}
+	}
+	// until every announced connection has been closed by the server
+	for _, old := range olds {
+		for i := 0; i < 400 && atomic.LoadInt32(&old.closed) == 0; i++ {
+			time.Sleep(5 * time.Millisecond)
+		}
 	}
 	time.Sleep(50 * time.Millisecond)
-	call(true)
-	out.unread = atomic.LoadInt32(&old.unread)
+	call()
+	for _, old := range olds {
+		out.unread += atomic.LoadInt32(&old.unread)
+	}
 	srv.mu.Lock()
 	out.arrivals = append([]nArrival(nil), srv.arrivals...)
 	out.conns = len(srv.conns)
@@ -308,20 +349,23 @@ func oracleNotify(o *nOutcome) []finding {
 		if c.OK && c.Latency < notifyBound {
 			continue
 		}
+		if c.OneWay && c.OK {
+			continue
+		}
 		if c.After {
-			add("C11:call-timeout:after-close-notification", fmt.Sprintf("client %s: call %s, issued %d ms after the server's close notification, ok=%v after %v (timeout %d ms, bound %v) although the server accepts new connections and answers everything it reads (%s)",
-				cb, c.Name, o.sc.DelayMs, c.OK, c.Latency.Round(time.Millisecond), notifyCallTimeoutMs, notifyBound, c.Err))
+			add("C11:call-timeout:after-close-notification", fmt.Sprintf("client %s: call %s, issued %d ms after the server's close notification no. %d, ok=%v after %v (timeout %d ms, bound %v) although the server accepts new connections and answers everything it reads (%s)",
+				cb, c.Name, o.sc.DelayMs, c.Epoch, c.OK, c.Latency.Round(time.Millisecond), notifyCallTimeoutMs, notifyBound, c.Err))
 		} else {
 			add("C11:call-failed:before-notification", fmt.Sprintf("call %s failed: %s", c.Name, c.Err))
 		}
 	}
 	if o.unread > 0 {
-		add("C11:dead-write:after-close-notification", fmt.Sprintf("client %s: %d request bytes were written to the connection the server had announced as closing, at least %d ms after the notification", cb, o.unread, o.sc.DelayMs))
+		add("C11:dead-write:after-close-notification", fmt.Sprintf("client %s: %d request bytes were written to a connection the server had announced as closing (connections %v), at least %d ms after the notification", cb, o.unread, o.announced, o.sc.DelayMs))
 	}
 	for _, a := range o.arrivals {
 		for _, c := range o.calls {
-			if c.Name == a.Func && c.After && a.Conn < o.oldConns {
-				add("C11:dead-write:after-close-notification", fmt.Sprintf("request %s, issued after the notification, arrived on the old connection %d", a.Func, a.Conn))
+			if c.Name == a.Func && c.Epoch > 0 && c.Epoch <= len(o.announced) && a.Conn <= o.announced[c.Epoch-1] {
+				add("C11:dead-write:after-close-notification", fmt.Sprintf("request %s, issued after notification no. %d (connection %d announced as closing), arrived on connection %d", a.Func, c.Epoch, o.announced[c.Epoch-1], a.Conn))
 			}
 		}
 	}
@@ -336,60 +380,72 @@ func oracleNotify(o *nOutcome) []finding {
 	return fs
 }
 
-// notifyModelLine: the scenario as a schedule of the adapter-level model
+// notifyModelLine: the scenario as a schedule of the adapter-level model: the calls before the first
+// notification and, after each notification, the first call (the announced connection certainly
+// still lingers then)
 func notifyModelLine(sc Scenario) string {
 	pre := sc.PreCalls
 	if pre < 1 {
 		pre = 1
+	}
+	restarts := sc.Restarts
+	if restarts < 1 {
+		restarts = 1
 	}
 	var toks []string
 	if sc.HasCallback {
 		toks = append(toks, "setCallback")
 	}
 	id := 0
-	for i := 0; i < pre; i++ {
+	for i := 0; i < pre+sc.OneWays; i++ {
 		id++
 		toks = append(toks, fmt.Sprintf("send.%d", id))
 	}
-	if sc.ExtraPush {
-		toks = append(toks, "pPush.0.7", "recv.0")
+	for r := 0; r < restarts; r++ {
+		if sc.ExtraPush && r == 0 {
+			toks = append(toks, "pPush.0.7", "recv.0")
+		}
+		toks = append(toks, fmt.Sprintf("pNotify.%d", r), "recv.0")
+		id++
+		toks = append(toks, fmt.Sprintf("send.%d", id))
 	}
-	toks = append(toks, "pNotify.0", "recv.0")
-	// the first call after the notification: the old connection certainly still lingers
-	id++
-	toks = append(toks, fmt.Sprintf("send.%d", id))
 	return "notify-run tree " + strings.Join(toks, " ")
 }
 
-// notifyImplLine: what was observed, in the vocabulary of the model's answer: request i went to
-// generation 0 if it arrived on a connection accepted before the notification (or was left unread in
-// it), to generation 1 otherwise
+// notifyImplLine: what was observed, in the vocabulary of the model's answer. A generation of the
+// model is a TarsClient; each one dials one connection here, so request i went to generation k if it
+// arrived on connection k, or — never read by the server — if it sits in the connection announced
+// last before it was issued.
 func notifyImplLine(o *nOutcome) string {
 	var sends, stale, pushed []string
-	pre := o.sc.PreCalls
-	if pre < 1 {
-		pre = 1
-	}
-	for i, c := range o.calls {
-		if i >= pre+1 { // later calls may come after the old connection has been closed: oracle only
-			break
+	n := 0
+	seenEpoch := map[int]bool{}
+	for _, c := range o.calls {
+		if c.Epoch > 0 {
+			if seenEpoch[c.Epoch] { // only the first call after each notification is compared
+				continue
+			}
+			seenEpoch[c.Epoch] = true
+			if c.Epoch > len(o.announced) {
+				continue
+			}
 		}
+		n++
 		gen := -1
 		for _, a := range o.arrivals {
 			if a.Func == c.Name {
-				if a.Conn < o.oldConns {
-					gen = 0
-				} else {
-					gen = 1
-				}
+				gen = a.Conn
 			}
 		}
-		if gen < 0 { // never read by the server: it sits in the old connection
+		if gen < 0 && c.Epoch > 0 {
+			gen = o.announced[c.Epoch-1]
+		}
+		if gen < 0 {
 			gen = 0
 		}
-		sends = append(sends, fmt.Sprintf("%d@%d", i+1, gen))
-		if c.After && gen == 0 {
-			stale = append(stale, fmt.Sprint(i+1))
+		sends = append(sends, fmt.Sprintf("%d@%d", n, gen))
+		if c.Epoch > 0 && gen <= o.announced[c.Epoch-1] {
+			stale = append(stale, fmt.Sprint(n))
 		}
 	}
 	for _, p := range o.pushed {
